@@ -93,6 +93,15 @@ func (rs *rangeState) add(m map[*smt.Term]ivl, t *smt.Term, v ivl) {
 	} else {
 		m[t] = v
 	}
+	// bounds on the integer value of a bit-vector are bounds on the bit-vector
+	if t.Sort.K == smt.KInt && len(t.Args) == 1 {
+		switch t.Op {
+		case smt.OBV2IntS:
+			rs.add(rs.sfacts, t.Args[0], v)
+		case smt.OBV2Int:
+			rs.add(rs.ufacts, t.Args[0], v)
+		}
+	}
 	// a + b <= K with a >= la  gives  b <= K - la (facts learnt so far only)
 	if t.Op == smt.OAdd && t.Sort.K == smt.KInt && v.hi != nil {
 		rs.memo = map[*smt.Term]ivl{}
